@@ -34,6 +34,10 @@ CHECKS = {
    "explicit-state breadth-first search over operation sequences on the real SignatureDatabase (replay on fresh instances, full-structure state hashing), step oracle = ordered-entry view, invariants evaluated in every state",
    "All operation sequences up to the depth bound from 3 initial states are executed on the real object; each step is judged against the abstract ordered-entry view derived from the object before/after, and every reached state is checked for query agreement, duplicate-freedom, size equations, reference-decodability and decode(encode) identity. Exhaustive up to the stated depth over the stated alphabet.",
    "Depth bound (3 quick / 5 thorough) and finite universe of types/owners/data values; no abstraction in the state key, so deduplication is exact.", "DESIGN.md section 4 C09"),
+ "C12": ("model_checking", "E-seq",
+   "explicit-state search to the fixpoint over write histories on the real in-memory store (state = full store content, exact deduplication), register reference model compared on every read in every state",
+   "All histories of plain and signed writes over the variable/value alphabet are explored on the real testfs store until no new store content is reachable (or the depth bound); in every state every variable is read back through the raw and typed accessors and compared with a last-write register model. Exhaustive: the search reaches its fixpoint.",
+   "Finite value alphabet (4 sizes per variable incl. empty) and 3 (quick) / 5 (thorough) variables; signatures memoised (deterministic PKCS#1 v1.5) under a frozen clock.", "DESIGN.md section 4 C12"),
 }
 
 NOT_YET = "check not built yet in this round (planned, see DESIGN.md section 4); no claim is made"
